@@ -14,9 +14,9 @@ import (
 	"github.com/polynetwork/poly/native/service/header_sync/cosmos"
 	"github.com/polynetwork/poly/native/service/header_sync/okex"
 	"github.com/polynetwork/poly/native/storage"
+	tm34crypto "github.com/switcheo/tendermint/crypto"
 	tm34ed25519 "github.com/switcheo/tendermint/crypto/ed25519"
 	tm34secp256k1 "github.com/switcheo/tendermint/crypto/secp256k1"
-	tm34crypto "github.com/switcheo/tendermint/crypto"
 	tm34proto "github.com/switcheo/tendermint/proto/tendermint/types"
 	tm34types "github.com/switcheo/tendermint/types"
 	"github.com/tendermint/tendermint/crypto"
